@@ -63,6 +63,17 @@ def section(rep, wa, with_rates, mutate=None, classes=CLASSES):
         Hh = lambda name, ok, fam: obls.append(enga.holds('%s %s: %s' % (cname, tag, name), z3.BoolVal(bool(ok)), fam, meta=meta))
         # (d) a time absent from the data returns nothing
         Hh('compute_matrices at a time absent from the data returns None', ms.compute_matrices(2.0, pva, em) is None, 'absent time')
+        # absent but CLOSE times on long time axes (run time, GPS seconds of week, Unix time): one
+        # ulp, 1e-9 and 1e-6 relative away from the only stamp - equality of stamps is exact
+        import numpy as realnp
+        for t0 in (1.0, 1000.0, 345600.0, 1.7e9):
+            probe = type(ms)(ms.data.set_axis([t0]), S.var('sd'), *([lever] if getattr(ms, 'imu_to_antenna_b', None) is not None else []))
+            for dt_ in (float(realnp.nextafter(t0, realnp.inf)) - t0, -1e-9 * t0, 1e-6 * t0):
+                try:
+                    got = probe.compute_matrices(t0 + dt_, pva, em)
+                except Exception as e_:      # noqa: BLE001
+                    got = e_
+                Hh('stamp %g: a time %.3g s away from it is absent and returns None' % (t0, dt_), got is None, 'absent time')
         ret = ms.compute_matrices(1.0, pva, em)
         Hh('compute_matrices at a time present in the data returns (z, H, R)', ret is not None and len(ret) == 3, 'present time')
         if ret is None:
@@ -287,6 +298,15 @@ def replay(spec):
         ms = measurements.BodyVelocity(data, sd)
     if ms.compute_matrices(2.0, pva, em) is not None:
         fails.append('a time absent from the data returned a measurement')
+    for t0 in (1.0, 1000.0, 345600.0, 1.7e9):
+        probe = type(ms)(ms.data.set_axis([t0]), sd, *([lever] if getattr(ms, 'imu_to_antenna_b', None) is not None else []))
+        for dt_ in (float(np.nextafter(t0, np.inf)) - t0, -1e-9 * t0, 1e-6 * t0):
+            try:
+                got = probe.compute_matrices(t0 + dt_, pva, em)
+            except Exception as e_:      # noqa: BLE001
+                got = e_
+            if got is not None:
+                fails.append('stamp %g: the absent time %.17g returned %s instead of None' % (t0, t0 + dt_, 'a measurement' if isinstance(got, tuple) else repr(got)[:80]))
     if spec.get('check') == 'sequence':
         first = ms.compute_matrices(1.0, pva, em)
         ms.compute_matrices(1.0, pva, error_model.InsErrorModel(not wa))
